@@ -8,6 +8,7 @@ their connection holds a complete request or EOF (otherwise the pool thread is '
 import errno
 import os
 import selectors
+import socket
 import threading
 
 import gunicorn.workers.gthread as G
@@ -46,15 +47,19 @@ class SimSock(object):
     def recv(self, n=8192, flags=0):
         if self.closed:
             raise OSError(errno.EBADF, "Bad file descriptor")
-        if not self.blocking and self.cid not in self.sim.flagged:
+        if not self.blocking and self.sim.in_handler and self.cid not in self.sim.flagged:
             # a pool thread reading from a non-blocking socket gets EAGAIN as soon as a request arrives in two pieces
             self.sim.flagged.add(self.cid)
             self.sim.V("served-when-thread-free", "handler-reads-from-non-blocking-socket", {"cid": self.cid, "requests_so_far": self.request_count})
         if self.buf:
+            if flags & socket.MSG_PEEK:
+                return self.buf[:n]
             d, self.buf = self.buf[:n], self.buf[n:]
             return d
         if self.client_closed:
             return b""
+        if not self.blocking:
+            raise BlockingIOError(errno.EAGAIN, "Resource temporarily unavailable")
         raise HarnessWedge("handler would block in recv on conn %d" % self.cid)
 
     def sendall(self, data):
@@ -295,6 +300,7 @@ class Sim(object):
         self.flagged = set()
         self.settled = 0
         self.in_callback = False
+        self.in_handler = False
         self.late_data = False
         self.cancelled = []
         self.patient_clients = False
@@ -423,12 +429,15 @@ class Sim(object):
         if not cand:
             return False
         f = cand[pick % len(cand)]
+        self.in_handler = True
         try:
             f._result = f.fn(f.conn_arg)
         except HarnessWedge:
             raise
         except BaseException as e:      # noqa
             f._exc = e
+        finally:
+            self.in_handler = False
         f.state = "done"
         pool.queue.remove(f)
         self.trace.append(("handled", f.conn_arg.sock.cid, self.clock))
